@@ -149,6 +149,11 @@ def gen_reg_query(r, ep, d):
     if r.chance(0.03):
         q.append("proxy=" + r.choice(["yes", "bogus"]))
         valid = False
+    if r.chance(0.015):
+        # a parameter that needs a value, without one (the directory answers 5.00: counted as an anomaly, the
+        # statement only speaks about 4.xx answers)
+        q = [s for s in q if not s.startswith(("lt=", "base="))] + [r.choice(["lt", "base"])]
+        valid = False
     if r.chance(0.3):
         r.shuffle(q)
     return q, valid
